@@ -570,7 +570,60 @@ fn probes(ctx: &Ctx) {
     }
 }
 
+/// `.byte` with a size that is not a plain number, in both memories that can reserve. What the pinned tree
+/// does (nothing reserved, nothing said - the listed finding) is told apart from a layout whose labels and
+/// bytes disagree with each other, which is another failure.
+fn byte_size_probes(ctx: &Ctx) {
+    let sizes: Vec<(&str, &str, &str, &str)> = vec![
+        // (name, definitions in front, size text, lines behind everything)
+        ("equ", ".equ width = 3", "width", ""),
+        ("set", ".set width = 3", "width", ""),
+        ("set-assigned-twice", ".set width = 1\n.set width = 3", "width", ""),
+        ("set-assigned-again-later", ".set width = 3", "width", ".set width = 5"),
+        ("sum", "", "1+2", ""),
+        ("parentheses", "", "(3)", ""),
+        ("function", "", "low(3)", ""),
+        ("product-of-equ", ".equ unit = 1", "3*unit", ""),
+        ("equ-defined-later", "", "later", ".equ later = 3"),
+    ];
+    for (name, defs, size, tail) in sizes.iter() {
+        for seg in [Seg::Eeprom, Seg::Data] {
+            let marker = if seg == Seg::Eeprom { "mark: .db 0xa5" } else { "mark: .byte 1" };
+            let src = format!(".dw mark - pad\n{}\n{}\npad: .byte {}\n{}\n{}\n", defs, seg.directive(), size, marker, tail);
+            let out = fw::build_str(&src);
+            ctx.eval(1);
+            ctx.count("byte_size_probes", 1);
+            let segname = seg.directive().trim_start_matches('.').to_string();
+            let want_eeprom: Vec<u8> = if seg == Seg::Eeprom { vec![0, 0, 0, 0xa5] } else { vec![] };
+            let replay = json!({"source": src, "byte_size_probe": name, "segment": segname, "observed": out.brief(), "detail": {"expect_code": fw::hex(&[3, 0], 4096), "expect_eeprom": fw::hex(&want_eeprom, 4096)}});
+            match &out {
+                // refusing what it cannot lay out is not a wrong layout
+                Outcome::Err(_) => ctx.count("byte_size_probes_refused", 1),
+                Outcome::Panic(p) => ctx.violation(format!("layout/byte/non-literal/panic/{}", segname), fw::clip(p, 160), replay),
+                Outcome::Ok(b) => {
+                    let (proper, nothing) = if seg == Seg::Eeprom {
+                        (b.code == vec![3, 0] && b.eeprom == vec![0, 0, 0, 0xa5], b.code == vec![0, 0] && b.eeprom == vec![0xa5])
+                    } else {
+                        (b.code == vec![3, 0] && b.ram_filling == 4, b.code == vec![0, 0] && b.ram_filling == 1)
+                    };
+                    if proper {
+                    } else if nothing {
+                        ctx.violation("layout/byte/non-literal", format!("`.byte {}` ({}, {}) reserves nothing and raises no error", size, name, segname), replay);
+                    } else {
+                        ctx.violation(
+                            format!("layout/byte/non-literal/label-and-image-disagree/{}", segname),
+                            format!("`.byte {}` ({}, {}): the distance between the labels around it is {:?}, the memory holds {}", size, name, segname, b.code, if seg == Seg::Eeprom { fw::hex(&b.eeprom, 16) } else { format!("{} bytes", b.ram_filling) }),
+                            replay,
+                        );
+                    }
+                }
+            }
+        }
+    }
+}
+
 pub fn run(ctx: &Ctx) -> i32 {
+    byte_size_probes(ctx);
     let n = ctx.tier.pick(4_000u64, 3_000_000u64);
     fw::par_for(n, 64, |i| {
         let mut rng = Rng::for_case(ctx.seed, 0xC02, i);
